@@ -28,7 +28,9 @@ LITERALS = ['[1, [2, {"a": [3]}]] as $c | $c[1].a + [.]', '{"k": {"l": [1, 2]}} 
             '[{"a": 1}, {"a": 0}] | sort_by(.a) | .[0].a = 5', '{"x": []} | .x += [1] | .x[0] += 1', '[3, 1, 2] | sort | .[0] = 9', '["a", "b"] | join(",") | ascii_upcase',
             '{"a": {"b": {"c": 1}}} | del(.a.b.c), (.a.b.c |= . + 1), [paths]', '[[0]] | .[0][0] |= 1 | . + [[2]] | flatten']
 SHAREDIN = ['del(.a.q)', 'del(.a.q, .b)', '.a.r |= map(. + 1)', '.. |= .', 'to_entries', '[paths]', 'del(..|.q?)', '.a |= del(.q)', 'delpaths([["a","q"],["b"]])', '.b.c = 1 | del(.a)', 'map_values(.)',
-            '.a.r[0] = 9', 'with_entries(.value |= .)', '[.[]] | add?', 'tojson | fromjson', '[tostream] | fromstream(.[])', '.a.r | sort | reverse', '.a + .b', 'keys, length, (.a | keys)', 'walk(.)']
+            '.a.r[0] = 9', 'with_entries(.value |= .)', '[.[]] | add?', 'tojson | fromjson', '[tostream] | fromstream(.[])', '.a.r | sort | reverse', '.a + .b', 'keys, length, (.a | keys)', 'walk(.)',
+            '.a.r + [9]', '.a.r[:2] + [.a.r[0]]', '.a.r + .a.r | length', 'reduce .a.r[] as $x (.a.r[:1]; . + [$x])', '.a.r[1:] + [0] | length', '.a.r - [1] + [2]', '[.a.r, .b.q] | add', '.a.r[:1] | . + . + .',
+            '.a.r |= . + [1]', '.a.r += [7]', '.a.r[:2] |= . + [5]', '[.a.r[:2][]] + .a.r[:1]', '.a.r | .[:2] as $p | $p + [4], $p + [5]']
 
 
 def run(tier, seed, replay):
@@ -65,7 +67,9 @@ def run(tier, seed, replay):
             cases = []
             for src, inp in progs:
                 for g, shared in ((8, True), (2, False)) if quick else ((2, True), (8, True), (32, True), (8, False), (32, False)):
-                    cases.append({"id": len(cases), "src": src, "input": inp, "g": g, "shared": shared, "reps": 3 if quick else 6,
+                    # aliasing mode of the input object (harness buildInput): arrays with spare capacity are what a JSON decoder produces
+                    mode = r.choice(["plain", "spare", "spare"]) if shared else "plain"
+                    cases.append({"id": len(cases), "src": src, "input": inp, "mode": mode, "g": g, "shared": shared, "reps": 3 if quick else 6,
                                   "gomaxprocs": r.choice([2, 4, 8, 16]), "parsedonly": r.randrange(5) == 0})
         vc.write_ndjson(work.path("race.cases"), cases)
         env = dict(os.environ, GORACE="halt_on_error=0 exitcode=0 history_size=2")
